@@ -39,6 +39,126 @@ pub proof fn lemma_mono_ab(cp: Seq<usize>, a: int, b: int)
     ensures cp[a] <= cp[b],
     decreases b - a,
 { if a < b { lemma_mono_ab(cp, a, b - 1); assert(cp[b - 1] <= cp[b - 1 + 1]); } }
+
+// ---- upper-triangle extraction ----
+// number of the first k elements of s that are <= c
+pub open spec fn cnt_le(s: Seq<usize>, k: int, c: int) -> int decreases k { if k <= 0 { 0 } else { cnt_le(s, k - 1, c) + (if s[k - 1] <= c { 1int } else { 0int }) } }
+pub proof fn lemma_cnt_le_bounds(s: Seq<usize>, k: int, c: int)
+    requires 0 <= k,
+    ensures 0 <= cnt_le(s, k, c) <= k,
+    decreases k,
+{ if k > 0 { lemma_cnt_le_bounds(s, k - 1, c); } }
+// in a column with nondecreasing row indices the entries <= c are exactly the first cnt_le of them
+pub proof fn lemma_cnt_le_sorted(s: Seq<usize>, k: int, c: int)
+    requires 0 <= k <= s.len(), forall|i: int, j: int| 0 <= i <= j < s.len() ==> s[i] <= s[j],
+    ensures forall|i: int| 0 <= i < k ==> (#[trigger] s[i] <= c <==> i < cnt_le(s, k, c)),
+    decreases k,
+{
+    if k > 0 {
+        lemma_cnt_le_sorted(s, k - 1, c);
+        lemma_cnt_le_bounds(s, k - 1, c);
+        if s[k - 1] <= c {
+            if k - 1 > 0 { assert(s[k - 2] <= s[k - 1]); assert(s[k - 2] <= c <==> k - 2 < cnt_le(s, k - 1, c)); }
+        }
+    }
+}
+pub open spec fn col_rows(A: CscMatrix<F>, c: int) -> Seq<usize> { A.rowval@.subrange(A.colptr@[c] as int, A.colptr@[c + 1] as int) }
+// entries of column c on or above the diagonal, and their running total over the columns before c
+pub open spec fn triu_cnt(A: CscMatrix<F>, c: int) -> int { cnt_le(col_rows(A, c), col_rows(A, c).len() as int, c) }
+pub open spec fn triu_cum(A: CscMatrix<F>, c: int) -> int decreases c { if c <= 0 { 0 } else { triu_cum(A, c - 1) + triu_cnt(A, c - 1) } }
+pub proof fn lemma_triu_cum_le(A: CscMatrix<F>, c: int)
+    requires colptr_wf(A), 0 <= c <= A.n,
+    ensures 0 <= triu_cum(A, c) <= A.colptr@[c], c < A.n ==> 0 <= triu_cnt(A, c) <= A.colptr@[c + 1] - A.colptr@[c],
+    decreases c,
+{
+    if c > 0 {
+        lemma_triu_cum_le(A, c - 1);
+        assert(A.colptr@[c - 1] <= A.colptr@[c]);
+        lemma_cnt_le_bounds(col_rows(A, c - 1), col_rows(A, c - 1).len() as int, c - 1);
+    }
+    if c < A.n {
+        assert(A.colptr@[c] <= A.colptr@[c + 1] <= A.colptr@[A.n as int]);
+        lemma_cnt_le_bounds(col_rows(A, c), col_rows(A, c).len() as int, c);
+    }
+}
+pub proof fn lemma_triu_cum_mono(A: CscMatrix<F>, a: int, b: int)
+    requires colptr_wf(A), 0 <= a <= b <= A.n,
+    ensures triu_cum(A, a) <= triu_cum(A, b),
+    decreases b,
+{ if a < b { lemma_triu_cum_mono(A, a, b - 1); lemma_triu_cum_le(A, b - 1); } }
+
+// what to_triu's postcondition means for a matrix whose columns have nondecreasing row indices: the result is upper
+// triangular and holds exactly the entries of A on or above the diagonal, in their columns, with their values
+pub open spec fn to_triu_post(A: CscMatrix<F>, R: CscMatrix<F>) -> bool {
+    &&& R.m == A.m && R.n == A.n && colptr_wf(R)
+    &&& forall|c: int| 0 <= c <= A.n ==> #[trigger] R.colptr@[c] == triu_cum(A, c)
+    &&& forall|c: int, i: int| 0 <= c < A.n && 0 <= i < triu_cnt(A, c) ==> {
+            &&& #[trigger] R.rowval@[triu_cum(A, c) + i] == A.rowval@[A.colptr@[c] + i]
+            &&& R.nzval@[triu_cum(A, c) + i] == A.nzval@[A.colptr@[c] + i] }
+}
+pub proof fn lemma_col_prefix(A: CscMatrix<F>, c: int)
+    requires
+        colptr_wf(A), 0 <= c < A.n,
+        forall|c: int, k1: int, k2: int| #[trigger] in_col(A, k1, c) && #[trigger] in_col(A, k2, c) && k1 <= k2 ==> A.rowval@[k1] <= A.rowval@[k2],
+    ensures forall|i: int| 0 <= i < col_rows(A, c).len() ==> (#[trigger] col_rows(A, c)[i] <= c <==> i < triu_cnt(A, c)),
+{
+    assert(A.colptr@[c] <= A.colptr@[c + 1] <= A.colptr@[A.n as int]);
+    let sq = col_rows(A, c);
+    assert forall|i: int, j: int| 0 <= i <= j < sq.len() implies sq[i] <= sq[j] by {
+        assert(sq[i] == A.rowval@[A.colptr@[c] + i]); assert(sq[j] == A.rowval@[A.colptr@[c] + j]);
+        assert(in_col(A, A.colptr@[c] + i, c) && in_col(A, A.colptr@[c] + j, c));
+    }
+    lemma_cnt_le_sorted(sq, sq.len() as int, c);
+}
+pub proof fn lemma_to_triu_dense(A: CscMatrix<F>, R: CscMatrix<F>)
+    requires
+        colptr_wf(A), to_triu_post(A, R),
+        forall|c: int, k1: int, k2: int| #[trigger] in_col(A, k1, c) && #[trigger] in_col(A, k2, c) && k1 <= k2 ==> A.rowval@[k1] <= A.rowval@[k2],
+    ensures
+        forall|c: int, k: int| #[trigger] in_col(R, k, c) ==> R.rowval@[k] <= c,
+        forall|c: int, k: int| #[trigger] in_col(A, k, c) && A.rowval@[k] <= c ==> {
+            let d = triu_cum(A, c) + (k - A.colptr@[c]);
+            in_col(R, d, c) && R.rowval@[d] == A.rowval@[k] && R.nzval@[d] == A.nzval@[k] },
+{
+    assert forall|c: int, k: int| #[trigger] in_col(R, k, c) implies R.rowval@[k] <= c by {
+        let i = k - triu_cum(A, c);
+        lemma_col_prefix(A, c);
+        assert(R.colptr@[c] == triu_cum(A, c)); assert(R.colptr@[c + 1] == triu_cum(A, c + 1));
+        assert(triu_cum(A, c + 1) == triu_cum(A, c) + triu_cnt(A, c));
+        lemma_triu_cum_le(A, c);
+        assert(R.rowval@[triu_cum(A, c) + i] == A.rowval@[A.colptr@[c] + i]);
+        assert(col_rows(A, c)[i] == A.rowval@[A.colptr@[c] + i]);
+    }
+    assert forall|c: int, k: int| #[trigger] in_col(A, k, c) && A.rowval@[k] <= c implies ({
+            let d = triu_cum(A, c) + (k - A.colptr@[c]);
+            in_col(R, d, c) && R.rowval@[d] == A.rowval@[k] && R.nzval@[d] == A.nzval@[k] }) by {
+        let i = k - A.colptr@[c];
+        lemma_col_prefix(A, c);
+        assert(col_rows(A, c)[i] == A.rowval@[k]);
+        assert(i < triu_cnt(A, c));
+        assert(R.colptr@[c] == triu_cum(A, c)); assert(R.colptr@[c + 1] == triu_cum(A, c + 1));
+        assert(triu_cum(A, c + 1) == triu_cum(A, c) + triu_cnt(A, c));
+        assert(R.rowval@[triu_cum(A, c) + i] == A.rowval@[A.colptr@[c] + i]);
+    }
+}
+// a canonical column is strictly increasing, hence nondecreasing as a sequence
+pub proof fn lemma_col_sorted(A: CscMatrix<F>, c: int)
+    requires canonical(A), 0 <= c < A.n, A.colptr@[c] <= A.colptr@[c + 1] <= A.rowval@.len(),
+    ensures nondecreasing(col_rows(A, c)), forall|i: int, j: int| 0 <= i < j < col_rows(A, c).len() ==> col_rows(A, c)[i] < col_rows(A, c)[j],
+{
+    let sq = col_rows(A, c);
+    assert forall|i: int, j: int| 0 <= i < j < sq.len() implies sq[i] < sq[j] by { lemma_col_lt(A, c, i, j); }
+}
+pub proof fn lemma_col_lt(A: CscMatrix<F>, c: int, i: int, j: int)
+    requires canonical(A), 0 <= c < A.n, A.colptr@[c] <= A.colptr@[c + 1] <= A.rowval@.len(), 0 <= i < j < col_rows(A, c).len(),
+    ensures col_rows(A, c)[i] < col_rows(A, c)[j],
+    decreases j - i,
+{
+    let lo = A.colptr@[c] as int;
+    assert(in_col(A, lo + j - 1, c));
+    assert(A.rowval@[lo + j - 1] < A.rowval@[lo + j - 1 + 1]);
+    if i < j - 1 { lemma_col_lt(A, c, i, j - 1); }
+}
 pub open spec fn nonzero(x: F) -> bool { !f_eq(x, f_zero()) }
 // number of stored entries among the first k whose value is not zero = the slot entry k moves to
 pub open spec fn kept(nz: Seq<F>, k: int) -> int decreases k { if k <= 0 { 0 } else { kept(nz, k - 1) + (if nonzero(nz[k - 1]) { 1int } else { 0int }) } }
@@ -210,6 +330,137 @@ it2
                 it2.seq().len() == self.rowval@.len(), (forall|i: int| 0 <= i < self.rowval@.len() ==> *(#[trigger] it2.seq()[i]) == self.rowval@[i]),
                 r21_k2 ==> forall|i: int| 0 <= i < it2.index@ ==> #[trigger] self.rowval@[i] < self.m,
                 !r21_k2 ==> exists|i: int| 0 <= i < self.rowval@.len() && #[trigger] self.rowval@[i] >= self.m,
+//@end
+
+//@fn file=src/algebra/csc/core.rs in="impl<T> CscMatrix<T>" name=new rules=R1,R6 ret=r
+//@contract
+    requires rowval@.len() == nzval@.len(), colptr@.len() == n + 1, colptr@[n as int] == rowval@.len(),
+    ensures r.m == m, r.n == n, r.colptr@ == colptr@, r.rowval@ == rowval@, r.nzval@ == nzval@,
+//@end
+
+//@fn file=src/algebra/csc/core.rs in="impl<T> CscMatrix<T>" name=to_triu rules=R1,R6,R22,R15:rowval|nzval ret=r
+//@contract
+    requires colptr_wf(*self), self.m == self.n, self.n < usize::MAX,
+    ensures
+        // C16 (upper-triangle extraction): column c of the result is the leading triu_cnt(c) entries of column c
+        // (lemma_to_triu_dense: for sorted columns these are exactly the entries on or above the diagonal)
+        to_triu_post(*self, r),
+//@pre
+        proof { assert(self.rowval@.len() == self.rowval.len()); assert(self.colptr@.len() == self.colptr.len()); lemma_triu_cum_le(*self, 0); }
+//@iter 1
+it0
+//@loop 1
+        invariant
+            it0.seq().len() == n, range_from(it0.seq(), 0), n == self.n, m == self.m, colptr_wf(*self), self.n < usize::MAX, self.rowval@.len() <= usize::MAX,
+            colptr@.len() == n + 1, colptr@[0] == 0,
+            nnz == triu_cum(*self, it0.index@ as int),
+            forall|c: int| 0 <= c < it0.index@ ==> #[trigger] colptr@[c + 1] == triu_cnt(*self, c),
+//@body_start 1
+            let ghost gc = col as int;
+            proof { lemma_triu_cum_le(*self, gc); lemma_triu_cum_le(*self, gc + 1); assert(self.colptr@[gc] <= self.colptr@[gc + 1] <= self.colptr@[self.n as int]); }
+//@iter 2
+it1
+//@loop 2
+                invariant
+                    rows@ == col_rows(*self, gc), col == gc,
+                    it1.seq().len() == rows@.len(), (forall|i: int| 0 <= i < rows@.len() ==> *(#[trigger] it1.seq()[i]) == rows@[i]),
+                    r22_n1 == cnt_le(rows@, it1.index@ as int, gc), r22_n1 <= it1.index@, rows@.len() <= usize::MAX,
+//@body_start 2
+                proof { assert(cnt_le(rows@, it1.index@ + 1, gc) == cnt_le(rows@, it1.index@ as int, gc) + (if rows@[it1.index@ as int] <= gc { 1int } else { 0int })); }
+//@before "let mut rowval = vec![0; nnz];"
+        proof { lemma_triu_cum_le(*self, n as int); }
+//@iter 3
+it2
+//@loop 3
+        invariant
+            it2.seq().len() == n, range_from(it2.seq(), 0), n == self.n, m == self.m, colptr_wf(*self), self.n < usize::MAX, self.rowval@.len() <= usize::MAX,
+            colptr@.len() == n + 1, rowval@.len() == nnz, nzval@.len() == nnz, nnz == triu_cum(*self, n as int),
+            forall|c: int| 0 <= c <= it2.index@ ==> #[trigger] colptr@[c] == triu_cum(*self, c),
+            forall|c: int| it2.index@ <= c < n ==> #[trigger] colptr@[c + 1] == triu_cnt(*self, c),
+            forall|c: int, i: int| 0 <= c < it2.index@ && 0 <= i < triu_cnt(*self, c) ==> {
+                &&& #[trigger] rowval@[triu_cum(*self, c) + i] == self.rowval@[self.colptr@[c] + i]
+                &&& nzval@[triu_cum(*self, c) + i] == self.nzval@[self.colptr@[c] + i] },
+//@body_start 3
+            let ghost gc = col as int;
+            let ghost rv1 = rowval@;
+            let ghost nz1 = nzval@;
+            proof {
+                lemma_triu_cum_le(*self, gc); lemma_triu_cum_le(*self, gc + 1); lemma_triu_cum_mono(*self, gc + 1, n as int);
+                assert(self.colptr@[gc] <= self.colptr@[gc + 1] <= self.colptr@[self.n as int]);
+                assert(colptr@[gc + 1] == triu_cnt(*self, gc));
+            }
+//@body_end 3
+            proof {
+                assert forall|c: int, i: int| 0 <= c < gc + 1 && 0 <= i < triu_cnt(*self, c) implies ({
+                    &&& #[trigger] rowval@[triu_cum(*self, c) + i] == self.rowval@[self.colptr@[c] + i]
+                    &&& nzval@[triu_cum(*self, c) + i] == self.nzval@[self.colptr@[c] + i] }) by {
+                    if c < gc {
+                        lemma_triu_cum_mono(*self, c + 1, gc);
+                        lemma_triu_cum_le(*self, c);
+                        assert(triu_cum(*self, c + 1) == triu_cum(*self, c) + triu_cnt(*self, c));
+                        assert(rv1[triu_cum(*self, c) + i] == self.rowval@[self.colptr@[c] + i]);
+                        assert(rowval@[triu_cum(*self, c) + i] == rv1[triu_cum(*self, c) + i]);
+                        assert(nzval@[triu_cum(*self, c) + i] == nz1[triu_cum(*self, c) + i]);
+                    } else {
+                        assert(rowval@[fdest + i] == self.rowval@[fsrc + i]);
+                        assert(nzval@[fdest + i] == self.nzval@[fsrc + i]);
+                    }
+                }
+            }
+//@before "CscMatrix::new(m, n, colptr, rowval, nzval)"
+        proof {
+            assert forall|a: int, b: int| 0 <= a <= b <= n implies colptr@[a] <= colptr@[b] by { lemma_triu_cum_mono(*self, a, b); }
+        }
+//@end
+
+//@fn file=src/algebra/csc/core.rs in="ShapedMatrix for CscMatrix<T>" name=nrows rules=R1 ret=r
+//@contract
+    ensures r == self.m
+//@end
+
+//@fn file=src/algebra/csc/core.rs in="impl<T> CscMatrix<T>" name=get_entry rules=R1,R23 ret=r
+//@contract
+    requires canonical(*self), idx.0 < self.m, idx.1 < self.n,
+    ensures
+        // C16 (entry lookup): Some(v) iff (row, col) is a stored position, v its value
+        match r {
+            Some(v) => exists|k: int| in_col(*self, k, idx.1 as int) && self.rowval@[k] == idx.0 && v == #[trigger] self.nzval@[k],
+            None => forall|k: int| #[trigger] in_col(*self, k, idx.1 as int) ==> self.rowval@[k] != idx.0,
+        },
+//@pre
+        proof { assert(self.rowval@.len() == self.rowval.len()); lemma_mono_all(self.colptr@); }
+        let ghost gc = idx.1 as int;
+        proof { assert(self.colptr@[gc] <= self.colptr@[gc + 1] <= self.colptr@[self.n as int]); }
+//@before "match usize_binary_search("
+        proof {
+            lemma_col_sorted(*self, gc);
+            assert(rows_in_this_column@ == col_rows(*self, gc));
+        }
+//@post
+        proof {
+            let lo = self.colptr@[gc] as int;
+            if r_v is None {
+                assert forall|k: int| #[trigger] in_col(*self, k, gc) implies self.rowval@[k] != idx.0 by {
+                    assert(col_rows(*self, gc)[k - lo] == self.rowval@[k]);
+                }
+            }
+        }
+//@end
+
+//@fn file=src/algebra/csc/core.rs in="impl<T> CscMatrix<T>" name=nnz rules=R1 ret=r
+//@contract
+    requires self.colptr@.len() == self.n + 1,
+    ensures r == self.colptr@[self.n as int],
+//@end
+
+//@fn file=src/algebra/csc/core.rs in="impl<T> CscMatrix<T>" name=index_to_coord rules=R1,R23 ret=r
+//@contract
+    requires canonical(*self), idx < self.colptr@[self.n as int],
+    ensures
+        // C16: the coordinates of storage slot idx
+        r.0 == self.rowval@[idx as int], in_col(*self, idx as int, r.1 as int),
+//@pre
+        proof { lemma_mono_all(self.colptr@); assert(self.colptr@.len() == self.colptr.len()); }
 //@end
 
 //@fn file=src/algebra/csc/core.rs in="impl<T> CscMatrix<T>" name=is_triu rules=R1,R21,R5 ret=r
